@@ -143,9 +143,9 @@ claim('C16', 'Coq proof (nested induction over the argument universe; frame / bl
       'resolution is a declared dependency (can_run => never dies in load), outcomes are stable under store extension; Task.dependencies\' walk declares exactly the tasks '
       'occurring underneath (bases, indices, blocks, CustomHash, containers); hence a consumer depends on, and is invalidated with (C09), every task underneath.  '
       'Tie: every argument tree of <= 3/4 nodes and random deep compositions as real jug objects, value() outcome and dependencies() compared with the model in coqc; '
-      'direct oracles (reference evaluation, reads within dependencies, can_run, store keys) and real `jug execute`/`jug invalidate` on a dict store; consumer-hash section: for sibling views over one root task (same last operation, different path above) and random pairs inside a hash-safe fragment (int/str/None/slice and task-valued indices, iteratetask, return_tuple, Tasklet, identity, CustomHash of those, mapped sequences/slices/elements), Task.hash() of consumers built with one function is equal iff the derived expressions are the same; after a real `jug execute` every consumer has its OWN stored result = f(reference value of its own argument) and the store holds one entry per distinct consumer.',
+      'direct oracles (reference evaluation, reads within dependencies, can_run, store keys) and real `jug execute`/`jug invalidate` on a dict store; consumer-hash section: for sibling views over one root task (same last operation, different path above) and random pairs inside a hash-safe fragment (int/str/None/slice and task-valued indices, iteratetask, return_tuple, Tasklet, identity, CustomHash of those, mapped sequences/slices/elements), Task.hash() of consumers built with one function is equal iff the derived expressions are the same; after a real `jug execute` every consumer has its OWN stored result = f(reference value of its own argument) and the store holds one entry per distinct consumer; slice indices are compared by what they denote for every length (a missing step is 1; a missing start is 0 only for a positive step): t[::-1] and t[0::-1] must have different consumer hashes and results of their own, t[:3] and t[0:3:1] may share; multi-step histories in one process: every kind of view is evaluated, the underlying tasks are recomputed with other results / removed / added through the store, Task.unload() or Task.load() is applied to the base tasks only, and the same view objects (and their consumers, run in-process) must give the operation applied to the CURRENT results; both evaluations are compared with the model against their own store (value() is a function of the store).',
       'Kernel + vm_compute; results are plain Python values (indexing into str/bytes, bool indices, return_tuple over dict/str are outside the model and only tested directly); '
-      'NoHash (equal hashes by design) and the hash limitations D1/D24 (containers, subclass instances) are outside the consumer-hash section and belong to C07/C08; container-subclass instances are seen by the model as their base kind when plain and as `AOpaque declared v` when they hold tasks; their Python type is checked by the direct oracles; mapped-sequence theorems assume what jug.mapreduce.map builds (blocks = break_up of the values, map_step >= 1; C17); exception kinds not distinguished; '
+      'a defaultdict result that invents missing entries makes a second evaluation of a view differ by Python\'s own semantics (such double evaluations are not compared); NoHash (equal hashes by design) and the hash limitations D1/D24 (containers, subclass instances) are outside the consumer-hash section and belong to C07/C08; container-subclass instances are seen by the model as their base kind when plain and as `AOpaque declared v` when they hold tasks; their Python type is checked by the direct oracles; mapped-sequence theorems assume what jug.mapreduce.map builds (blocks = break_up of the values, map_step >= 1; C17); exception kinds not distinguished; '
       'harness: spec generator/realiser, reference evaluator, interning.',
       'DESIGN.md sec. 3 C16')
 
@@ -189,7 +189,7 @@ claim('C13', 'Coq proof (a crash changes nothing but the crashed worker; dead wo
       'Theorems (Props/C13.v): a crash at any point leaves every result, every lock and every other worker as they were (residue: the locks it held); the dead worker '
       'never acts again; everything stored stays stored, unchanged and sequential, and is never re-run; stale locks can be removed as soon as every holder is dead, '
       'which frees every lock and touches nothing else; a fresh execute then completes the whole computation.  ' + _EXEC_TIE +
-      '  Workers stopped for ever at every scheduling point + real remove_locks + recovery workers; real SIGKILL subprocess runs on a file store in the thorough tier.',
+      '  Workers stopped for ever at every scheduling point + real remove_locks + recovery workers; kills inside store.dump(); real SIGKILL (inside a task function and inside file_store.dump) + the real `jug cleanup --locks-only` + recovery execute, also for a jugfile that selects its own store with jug.set_jugdir().',
       _EXEC_NOTE + '  Atomicity of a dump under kill / power loss is C05.', 'DESIGN.md sec. 3 C13')
 
 ALL = ['C%02d' % i for i in range(1, 21)]
